@@ -117,6 +117,32 @@ fn snap_of(data: &CacheData) -> Snap {
     }
 }
 
+/// A byte position chosen by line and column, the column never inside the digits of a wall-clock
+/// stamp: file lengths depend on those digits, so damage must not be addressed by byte offset.
+fn structural_position(b: &[u8], arg: u32) -> (usize, String) {
+    let mut starts = vec![0usize];
+    for (i, c) in b.iter().enumerate() {
+        if *c == b'\n' && i + 1 < b.len() {
+            starts.push(i + 1);
+        }
+    }
+    let line = (arg as usize) % starts.len();
+    let from = starts[line];
+    let to = starts.get(line + 1).map(|x| x - 1).unwrap_or(b.len());
+    let mut len = to.saturating_sub(from).max(1);
+    // "key": <number> lines other than the two counters carry wall-clock digits: stay left of the value
+    let raw = &b[from..to.max(from)];
+    if let Some(k) = raw.windows(2).position(|w| w == b": ") {
+        let numeric = raw.get(k + 2).map(|c| c.is_ascii_digit()).unwrap_or(false);
+        let counter = raw.windows(6).any(|w| w == b"_count");
+        if numeric && !counter {
+            len = (k + 2).min(len).max(1);
+        }
+    }
+    let col = ((arg >> 10) as usize) % len;
+    ((from + col).min(b.len() - 1), format!("line {line} col {col}"))
+}
+
 fn panic_text(p: Box<dyn std::any::Any + Send>) -> String {
     p.downcast_ref::<String>()
         .cloned()
@@ -130,8 +156,10 @@ const STAMP_GAP: Duration = Duration::from_micros(100);
 pub fn execute(plan: &Plan, entropy: u64) -> RunReport {
     // `try_remove_oldest_peers` ranks peers by `last_seen.elapsed()` evaluated one after the other, so a
     // thread preempted between two evaluations for longer than the distance of two stamps evicts the
-    // wrong peer. The sim keeps stamps STAMP_GAP apart, measures every call that can trim peers, and
-    // re-executes the plan when such a call took long enough for the wall clock to have decided.
+    // wrong peer. The sim keeps stamps STAMP_GAP apart, reads the guarded timer around that ranking for
+    // every call that can trim peers stamped during the run, repeats an in-memory operation (on a fresh
+    // seeded thread) and re-executes the whole plan (writer segments) when the ranking took long enough
+    // for the wall clock to have decided. Reader probes log only counts in that situation.
     let mut reruns = 0;
     loop {
         // a re-execution needs a fresh OS thread like the first one (std caches the HashMap keys per thread)
@@ -263,23 +291,70 @@ impl<'a> World<'a> {
         }
     }
 
-    /// `input` went through a call that took `took`: could the call have trimmed peers whose stamps
-    /// were taken during this run? Then a long call may have been decided by the wall clock.
-    fn clock_sensitive(&mut self, input: &Snap, extra_now_peers: usize, took: Duration) {
-        if took < STAMP_GAP.mul_f32(0.8) {
-            return;
+    /// Could a call on `input` (plus `extra_now_peers` peers stamped inside the call) trim peers among
+    /// two or more peers whose stamps were taken during this run? A function of the input only.
+    fn trim_sensitive(&self, input: &Snap, extra_now_peers: usize) -> bool {
+        let elig = input.eligible(SystemTime::now(), self.expiry);
+        if elig.n_nonempty_peers() + extra_now_peers <= self.plan.max_peers {
+            return false;
         }
-        let now = SystemTime::now();
-        let elig = input.eligible(now, self.expiry);
         let recent = elig
             .peers
             .values()
             .filter(|v| v.iter().any(|(_, e)| fmt_ls(e.ls, self.base) == "now"))
-            .count()
-            + extra_now_peers;
-        if recent >= 2 && elig.n_nonempty_peers() + extra_now_peers > self.plan.max_peers {
-            self.race_suspect = true;
+            .count();
+        recent + extra_now_peers >= 2
+    }
+
+    /// Run a clock-sensitive in-memory operation on a fresh OS thread with a fixed entropy seed, so
+    /// that repeating it (after a preemption) starts from exactly the same hidden state (std keeps
+    /// the HashMap keys per thread and advances them with every map created).
+    fn on_op_thread<T: Send + 'static>(&self, f: impl FnOnce() -> T + Send + 'static) -> T {
+        let seed = simkit::mix(self.entropy, 0x0b_0000 + self.rep.steps);
+        let h = std::thread::Builder::new()
+            .name("op".into())
+            .spawn(move || {
+                if simkit::shim::loaded() {
+                    simkit::shim::reseed(seed);
+                }
+                hooks::measure_trim_windows(true);
+                f()
+            })
+            .expect("spawn op thread");
+        match h.join() {
+            Ok(v) => v,
+            Err(p) => resume_unwind(p),
         }
+    }
+
+    /// `input` went through a call whose ranking of peers by `elapsed()` took `took` (plus
+    /// `extra_now_peers` peers stamped inside the call): could the call have trimmed peers whose stamps
+    /// were taken during this run, and did the ranking last long enough for two `elapsed()` evaluations
+    /// to be further apart than two of those stamps?
+    fn clock_decided(&self, input: &Snap, extra_now_peers: usize, took: Duration) -> bool {
+        let now = SystemTime::now();
+        let elig = input.eligible(now, self.expiry);
+        if elig.n_nonempty_peers() + extra_now_peers <= self.plan.max_peers {
+            return false;
+        }
+        let mut recent: Vec<SystemTime> = elig
+            .peers
+            .values()
+            .filter_map(|v| v.iter().map(|(_, e)| e.ls).filter(|ls| fmt_ls(*ls, self.base) == "now").max())
+            .collect();
+        if extra_now_peers > 0 {
+            recent.push(now);
+        }
+        if recent.len() < 2 {
+            return false;
+        }
+        recent.sort();
+        let gap = recent
+            .windows(2)
+            .map(|w| w[1].duration_since(w[0]).unwrap_or_default())
+            .min()
+            .unwrap_or_default();
+        took >= gap.mul_f32(0.75)
     }
 
     fn render(&self, s: &Snap) -> String {
@@ -459,12 +534,10 @@ impl<'a> World<'a> {
     fn probe_load(&mut self) {
         let own = self.last_bytes.as_ref().and_then(|b| parse_file(b));
         let cfg = self.cfg.clone();
-        let t0 = Instant::now();
+        // which of several peers stamped during this run is trimmed can depend on a preemption inside
+        // the call (see execute()); then only the counts reach the log
+        let identities = !own.as_ref().map(|o| self.trim_sensitive(o, 0)).unwrap_or(false);
         let res = catch_unwind(AssertUnwindSafe(|| BootstrapCacheStore::load_cache_data(&cfg)));
-        let took = t0.elapsed();
-        if let Some(o) = &own {
-            self.clock_sensitive(o, 0, took);
-        }
         let writers = if self.flights.is_empty() { "none_in_flight" } else { "writers_in_flight" };
         match res {
             Err(p) => {
@@ -503,7 +576,11 @@ impl<'a> World<'a> {
             }
             Ok(Ok(data)) => {
                 let l = snap_of(&data);
-                self.rep.log(format!("  probe: load -> Ok {}", self.render(&l)));
+                if identities {
+                    self.rep.log(format!("  probe: load -> Ok {}", self.render(&l)));
+                } else {
+                    self.rep.log(format!("  probe: load -> Ok {} peers {} addrs (trimmed among peers stamped during the run)", l.n_nonempty_peers(), l.n_addrs()));
+                }
                 if self.file_state == FileState::Corrupt {
                     self.rep.probe("load_ok_on_corrupted_file");
                 }
@@ -577,12 +654,35 @@ impl<'a> World<'a> {
             SHAPE_RELAYED => Some(good_addr(self.plan.ukey, relay, var)),
             _ => None,
         };
-        self.before_stamping_op();
-        let t0 = Instant::now();
-        self.procs[p].as_mut().unwrap().add_addr(m);
-        let took = t0.elapsed();
-        self.last_stamp = Instant::now();
-        self.clock_sensitive(&before, 1, took);
+        if self.trim_sensitive(&before, 1) {
+            let mut tries = 0;
+            loop {
+                let backup = self.procs[p].as_ref().unwrap().clone();
+                self.before_stamping_op();
+                let mut store = self.procs[p].take().unwrap();
+                let mm = m.clone();
+                let (store, took) = self.on_op_thread(move || {
+                    store.add_addr(mm);
+                    (store, hooks::take_trim_window())
+                });
+                self.procs[p] = Some(store);
+                self.last_stamp = Instant::now();
+                tries += 1;
+                if !self.clock_decided(&before, 1, took) {
+                    break;
+                }
+                if tries >= 50 {
+                    self.race_suspect = true;
+                    break;
+                }
+                // undo and repeat: the call was preempted inside a clock-sensitive comparison
+                self.procs[p] = Some(backup);
+            }
+        } else {
+            self.before_stamping_op();
+            self.procs[p].as_mut().unwrap().add_addr(m);
+            self.last_stamp = Instant::now();
+        }
         self.rep.ops += 1;
         let after = self.mem_snap(p).unwrap();
         self.rep.log(format!("add p{p} P{peer}a{var} shape={} -> {}", shape_name(shape), self.render(&after)));
@@ -658,10 +758,29 @@ impl<'a> World<'a> {
             self.rep.log(format!("cleanup p{p}: process busy flushing, skipped"));
             return;
         };
-        let t0 = Instant::now();
-        self.procs[p].as_mut().unwrap().perform_cleanup();
-        let took = t0.elapsed();
-        self.clock_sensitive(&before, 0, took);
+        if self.trim_sensitive(&before, 0) {
+            let mut tries = 0;
+            loop {
+                let backup = self.procs[p].as_ref().unwrap().clone();
+                let mut store = self.procs[p].take().unwrap();
+                let (store, took) = self.on_op_thread(move || {
+                    store.perform_cleanup();
+                    (store, hooks::take_trim_window())
+                });
+                self.procs[p] = Some(store);
+                tries += 1;
+                if !self.clock_decided(&before, 0, took) {
+                    break;
+                }
+                if tries >= 50 {
+                    self.race_suspect = true;
+                    break;
+                }
+                self.procs[p] = Some(backup);
+            }
+        } else {
+            self.procs[p].as_mut().unwrap().perform_cleanup();
+        }
         self.rep.ops += 1;
         let after = self.mem_snap(p).unwrap();
         self.rep.log(format!("cleanup p{p} -> {}", self.render(&after)));
@@ -751,32 +870,17 @@ impl<'a> World<'a> {
             // file lengths depend on the digits of wall-clock stamps, so damage is addressed by
             // structure (per-mille prefix, line / column outside stamp values), never by byte offset
             (0, Some(b)) if b.len() >= 4 => {
-                let permille = 1 + (arg as usize) % 998;
+                let (pos, note) = structural_position(&b, arg);
                 // 1 ..= len-2: at least the closing brace is cut off
-                let n = (1 + (b.len() - 2) * permille / 1000).min(b.len() - 2);
-                ("corrupt_truncated", b[..n].to_vec(), format!("prefix {permille}/1000"))
+                let n = pos.clamp(1, b.len() - 2);
+                ("corrupt_truncated", b[..n].to_vec(), format!("before {note}"))
             }
             (1, Some(mut b)) if !b.is_empty() => {
-                let mut starts = vec![0usize];
-                for (i, c) in b.iter().enumerate() {
-                    if *c == b'\n' && i + 1 < b.len() {
-                        starts.push(i + 1);
-                    }
-                }
-                let line = (arg as usize) % starts.len();
-                let from = starts[line];
-                let to = starts.get(line + 1).map(|x| x - 1).unwrap_or(b.len());
-                let mut len = to.saturating_sub(from).max(1);
-                let text = String::from_utf8_lossy(&b[from..to.max(from)]).to_string();
-                if text.contains("since_epoch") {
-                    len = text.find(':').map(|c| c + 1).unwrap_or(len).max(1);
-                }
-                let col = ((arg >> 10) as usize) % len;
+                let (pos, note) = structural_position(&b, arg);
                 let bit = ((arg >> 24) as usize) % 8;
-                let pos = (from + col).min(b.len() - 1);
                 b[pos] ^= 1 << bit;
                 self.tainted = true;
-                ("corrupt_bit_flip", b, format!("line {line} col {col} bit {bit}"))
+                ("corrupt_bit_flip", b, format!("{note} bit {bit}"))
             }
             (0, _) | (1, _) => {
                 self.rep.log("corrupt: no file to damage, skipped".to_string());
@@ -905,7 +1009,7 @@ impl<'a> World<'a> {
     /// The writer `label` has just run one segment (from `site_before` to its next gate or to the end).
     fn after_release(&mut self, label: u64, site_before: &'static str) {
         let what = format!("w{label} after {site_before}");
-        if let (Some(took), Some(fl)) = (self.ctrl.last_busy(label), self.flights.iter().find(|f| f.label == label)) {
+        if let (Some(took), Some(fl)) = (self.ctrl.last_trim_window(label), self.flights.iter().find(|f| f.label == label)) {
             // segments that clean up: the load (file side) and merge + clean-up (both sides)
             let input = match (site_before, fl.kind) {
                 ("start", Kind::Flush { .. }) => fl.f0.clone(),
@@ -926,7 +1030,9 @@ impl<'a> World<'a> {
                 _ => None,
             };
             if let Some(input) = input {
-                self.clock_sensitive(&input, 0, took);
+                if self.clock_decided(&input, 0, took) {
+                    self.race_suspect = true;
+                }
             }
         }
         if self.ctrl.is_finished(label) {
